@@ -1,7 +1,7 @@
 #!/bin/bash
 # tools/run_all.sh [tier] [seed] : every check once on the current /repo tree; prints one line each
 TIER=${1:-quick}; SEED=${2:-1}
-cd /verif
+cd "$(dirname "$0")/.."
 for p in C01 C02 C03 C04 C05 C06 C07 C08 C09 C10 C11 C12 C13 C14 C15 C16 C17 C18 C19 C20; do
   OUT=$(VERIF_SEED=$SEED ./check $p $TIER 2>&1); RC=$?
   echo "$p rc=$RC $(echo "$OUT" | grep -E "$TIER seed" | head -1)"
